@@ -190,7 +190,6 @@ Proof.
   { destruct (skip_queries _ rest); [|discriminate]. destruct (skip_plain _ _); discriminate. }
   apply N.eqb_neq in Ea.
   destruct (skip_queries (N.to_nat (h_qd h)) rest) as [r1|] eqn:E1; [|discriminate].
-  destruct (65536 <=? h_an h + h_ns h); [discriminate|].
   destruct (skip_plain (N.to_nat (h_an h + h_ns h)) r1) as [r2|] eqn:E2; [|discriminate].
   destruct (skip_add (N.to_nat (h_ar h - 1)) false r2) as [[r3 fl]|] eqn:E3; [|discriminate].
   destruct fl; [discriminate|].
